@@ -162,7 +162,7 @@ func runC11(c *Ctx) {
 	// the composer applies a validated ietf-json-patch through the library only: no other code path produces document
 	// bytes from an operation (the pointer rules above are rules about what the *library* does with a pointer)
 	c.jsonPatchFoldRule("C11.X3")
-	c.Min("C11.X3", 1)
+	c.Min("C11.X3", 2)
 
 	// validator and composer use the same decoder, on the patch's own value
 	decode := lib.Func("DecodePatch")
